@@ -20,7 +20,7 @@ REQUIRED = {"return_truth": 800, "attempt_count": 100, "no_leak": 800, "terminat
 ASSUMPTIONS = ["termination is judged as bounded progress on the virtual clock: the call must "
                "return before (1+force_retry)(1+arc)(ARD+airtime+260us)+50 SPI costs (+20%)",
                "ARD/data-rate combinations respect the documented constraint"]
-BUDGET = {"quick": 150, "thorough": 420}
+BUDGET = {"quick": 480, "thorough": 900}
 
 
 def _case(rng, **over):
